@@ -150,6 +150,14 @@ def run_case(case):
         if prop == 'C03':
             msg = '%s: %s' % (type(e).__name__, e)
             mech = 'C03.walrus.comprehension_collision' if 'cannot rebind comprehension iteration variable' in msg else None
+            if 'no binding for nonlocal' in msg and (opts.get('remove_debug') or opts.get('remove_asserts')):
+                try:
+                    o2 = dict(opts)
+                    o2['remove_debug'] = o2['remove_asserts'] = False
+                    compile(pm.minify(src, **common.opts_to_kwargs(o2, pm)), 'q', 'exec')
+                    mech = 'C08.remove_debug.removes_only_binding_of_nonlocal'
+                except Exception:
+                    pass
             res['violations'].append({'mech': mech, 'detail': 'output rejected by the compiler: %s' % msg[:200], 'witness': {'out': out[:800]}})
             res['status'] = 'violation'
             return res
